@@ -112,6 +112,88 @@ Proof.
   rewrite (map_ext _ _ (fun r => denorm_rename_ref lk lk' f r H)). reflexivity.
 Qed.
 
+(* ---- per namespace ---- *)
+Lemma perm_filter {A} (f : A -> bool) l l' : Permutation l l' -> Permutation (filter f l) (filter f l').
+Proof.
+  induction 1 as [|x l l' _ IH|x y l|l l' l'' _ IH1 _ IH2]; cbn [filter].
+  - constructor.
+  - destruct (f x); [now constructor | exact IH].
+  - destruct (f x), (f y); try apply Permutation_refl. apply perm_swap.
+  - eapply Permutation_trans; eauto.
+Qed.
+Definition rename_pair (f : nat -> nat) (p : gnode * nat) : gnode * nat := (rename_node f (fst p), snd p).
+Lemma nodes_of_ns_rename f k nodes : nodes_of_ns k (map (rename_pair f) nodes) = map (rename_node f) (nodes_of_ns k nodes).
+Proof.
+  unfold nodes_of_ns. induction nodes as [|[n s] r IH]; [reflexivity|].
+  cbn [map filter rename_pair fst snd]. destruct (Nat.eqb s k); cbn [map fst]; now rewrite IH.
+Qed.
+Lemma nodes_of_ns_perm k nodes nodes' : Permutation nodes nodes' -> Permutation (nodes_of_ns k nodes) (nodes_of_ns k nodes').
+Proof. intros P. unfold nodes_of_ns. apply Permutation_map. now apply perm_filter. Qed.
+Theorem normalized_nodes_ns_invariant lk lk' f k nodes nodes' :
+  (forall i, lookup lk' (f i) = lookup lk i) -> Permutation nodes' (map (rename_pair f) nodes) ->
+  normalized_nodes_ns lk' k nodes' = normalized_nodes_ns lk k nodes.
+Proof.
+  intros H P. unfold normalized_nodes_ns. apply (normalized_nodes_invariant lk lk' f); [exact H|].
+  rewrite <- nodes_of_ns_rename. now apply nodes_of_ns_perm.
+Qed.
+Lemma idmem_in x l : idmem x l = true <-> In x l.
+Proof. unfold idmem. rewrite existsb_exists. split; [intros [y [Hy E]]; apply Nat.eqb_eq in E; now subst | intros Hx; exists x; split; [exact Hx | apply Nat.eqb_refl]]. Qed.
+Lemma idmem_perm x l l' : Permutation l l' -> idmem x l = idmem x l'.
+Proof.
+  intros P. destruct (idmem x l) eqn:E.
+  - symmetry. apply idmem_in. apply idmem_in in E. eapply Permutation_in; eauto.
+  - destruct (idmem x l') eqn:E'; [|reflexivity]. apply idmem_in in E'. apply Permutation_sym in P.
+    assert (In x l) by (eapply Permutation_in; eauto). apply idmem_in in H. congruence.
+Qed.
+Lemma idmem_map_inj f x l : (forall i j, f i = f j -> i = j) -> idmem (f x) (map f l) = idmem x l.
+Proof.
+  intros Hinj. destruct (idmem x l) eqn:E.
+  - apply idmem_in. apply idmem_in in E. now apply in_map.
+  - destruct (idmem (f x) (map f l)) eqn:E'; [|reflexivity]. apply idmem_in in E'. apply in_map_iff in E'.
+    destruct E' as [y [Hy Hin]]. apply Hinj in Hy. subst y. apply idmem_in in Hin. congruence.
+Qed.
+Lemma refs_of_ns_rename f k nodes refs : (forall i j, f i = f j -> i = j) ->
+  refs_of_ns k (map (rename_pair f) nodes) (map (rename_ref f) refs) = map (rename_ref f) (refs_of_ns k nodes refs).
+Proof.
+  intros Hinj. unfold refs_of_ns. rewrite nodes_of_ns_rename, map_map.
+  assert (Eids : map (fun x => g_id (rename_node f x)) (nodes_of_ns k nodes) = map f (map g_id (nodes_of_ns k nodes))) by (rewrite map_map; reflexivity).
+  rewrite Eids. set (ids := map g_id (nodes_of_ns k nodes)).
+  induction refs as [|[[s t] ty] r IH]; [reflexivity|].
+  cbn [map filter rename_ref fst snd]. rewrite !(idmem_map_inj f _ ids Hinj).
+  destruct (idmem s ids || idmem t ids); cbn [map rename_ref]; now rewrite IH.
+Qed.
+Lemma refs_of_ns_perm k nodes nodes' refs refs' : Permutation nodes nodes' -> Permutation refs refs' ->
+  Permutation (refs_of_ns k nodes refs) (refs_of_ns k nodes' refs').
+Proof.
+  intros Pn Pr. unfold refs_of_ns.
+  assert (Pids : Permutation (map g_id (nodes_of_ns k nodes)) (map g_id (nodes_of_ns k nodes'))) by (apply Permutation_map; now apply nodes_of_ns_perm).
+  rewrite (filter_ext _ (fun r => idmem (fst (fst r)) (map g_id (nodes_of_ns k nodes')) || idmem (snd (fst r)) (map g_id (nodes_of_ns k nodes')))).
+  - now apply perm_filter.
+  - intros r. now rewrite !(idmem_perm _ _ _ Pids).
+Qed.
+Theorem normalized_refs_ns_invariant lk lk' f k nodes nodes' refs refs' :
+  (forall i, lookup lk' (f i) = lookup lk i) -> (forall i j, f i = f j -> i = j) ->
+  Permutation nodes' (map (rename_pair f) nodes) -> Permutation refs' (map (rename_ref f) refs) ->
+  normalized_refs_ns lk' k nodes' refs' = normalized_refs_ns lk k nodes refs.
+Proof.
+  intros H Hinj Pn Pr. unfold normalized_refs_ns. apply (normalized_refs_invariant lk lk' f); [exact H|].
+  rewrite <- (refs_of_ns_rename f k nodes refs Hinj). now apply refs_of_ns_perm.
+Qed.
+(* the per-namespace tables hold exactly the rows of the namespace / the references touching it *)
+Theorem nodes_of_ns_spec k nodes n : In n (nodes_of_ns k nodes) <-> In (n, k) nodes.
+Proof.
+  unfold nodes_of_ns. rewrite in_map_iff. split.
+  - intros [[n0 s] [E Hin]]. cbn in E. subst n0. apply filter_In in Hin. destruct Hin as [Hin Hs]. cbn in Hs. apply Nat.eqb_eq in Hs. now subst.
+  - intros Hin. exists (n, k). split; [reflexivity|]. apply filter_In. split; [exact Hin | apply Nat.eqb_refl].
+Qed.
+Theorem refs_of_ns_spec k nodes refs r : In r (refs_of_ns k nodes refs) <->
+  In r refs /\ (exists n, In (n, k) nodes /\ (g_id n = fst (fst r) \/ g_id n = snd (fst r))).
+Proof.
+  unfold refs_of_ns. rewrite filter_In, orb_true_iff, !idmem_in, !in_map_iff. split.
+  - intros [Hr [[n [E Hn]]|[n [E Hn]]]]; (split; [exact Hr|]); exists n; (split; [now apply nodes_of_ns_spec|]); auto.
+  - intros [Hr [n [Hn [E|E]]]]; (split; [exact Hr|]); [left|right]; exists n; (split; [exact E | now apply nodes_of_ns_spec]).
+Qed.
+
 (* non-vacuity *)
 Example nv_lt : py_lt {| cls := lit "UAInt32"; key := lit "(5,)" |} {| cls := lit "UAString"; key := lit "('a',)" |} = true
              /\ py_lt {| cls := lit "UAInt32"; key := lit "(10,)" |} {| cls := lit "UAInt32"; key := lit "(5,)" |} = true.
